@@ -69,6 +69,7 @@ type Ctx struct {
 	caseHdr   string // Require Import ... and the name of the check function
 	caseFn    string
 	shard     int
+	concurrent bool // C16: violations of the lease guarantees found under concurrent load count for this property
 
 	Evals      int
 	distinct   map[string]bool
